@@ -18,6 +18,7 @@ class Cell(object):
 
     def set_value(self, I, val):
         self.ws.cells[(self.row, self.col)] = val
+        _note_row(I, self.ws, self.row)
 
 
 def _cint(v, what):
@@ -31,10 +32,21 @@ def _row(I, v):
     return I.num(v)
 
 
+def _note_row(I, ws, row):
+    """a row index that depends on the variable of an enclosing symbolic loop: remember the loop's range (how many rows)"""
+    if row.as_const() is not None:
+        return
+    text = repr(row)
+    for ctx in getattr(I, "loop_stack", []):
+        if ctx.var in text:
+            ws.row_ranges[row] = (ctx.var, ctx.lo, ctx.hi)
+
+
 class Worksheet(object):
     def __init__(self, title):
         self.title = title
         self.cells = {}
+        self.row_ranges = {}      # symbolic row index -> (loop variable, lo, hi) of the loop that fills it
 
     def setitem(self, I, idx, val):
         if isinstance(idx, Const) and isinstance(idx.v, str):
@@ -49,8 +61,10 @@ class Worksheet(object):
         col = _cint(args[1] if len(args) > 1 else kwargs["column"], "column")
         if "value" in kwargs:
             self.cells[(row, col)] = kwargs["value"]
+            _note_row(I, self, row)
         elif len(args) > 2:
             self.cells[(row, col)] = args[2]
+            _note_row(I, self, row)
         return PyObjV(Cell(self, row, col))
 
     def m_iter_cols(self, I, args, kwargs):
